@@ -37,6 +37,8 @@ def contentBetween (doc : Node) (from_ to : Nat) : Option Bool :=
         if dist > 0 && depth > 0 && r.indexAfter depth == (r.node depth).kids.length then
           climb fuel (depth - 1) (dist - 1)
         else (depth, dist)
+    -- the range starts inside a text node: the rest of that text is content
+    if dist > 0 && r.textOffset != 0 then some true else
     let (depth, dist) := climb (r.depth + 1) r.depth dist
     let rec descend : Nat → Option Node → Bool
       | 0, _ => false
